@@ -57,6 +57,14 @@ def resolve(installed, c):
     return max(ok, key=vtuple) if ok else None
 
 
+def norm_tmp(rel):
+    """Random suffixes of temporary names (os.MkdirTemp / os.CreateTemp) are not part of the observable state."""
+    import re
+    rel = re.sub(r"(\.tmp-|-tmp-|tmp-)\d+", r"\1*", rel)
+    rel = re.sub(r"(\.staging/[^/]*?-)\d+(/|$)", r"\1*\2", rel)
+    return rel
+
+
 class World:
     def __init__(self, workdir):
         self.workdir = workdir
@@ -133,11 +141,11 @@ class World:
                 rel = os.path.relpath(p, base)
                 if rel.startswith("tmp") or rel == "logs.txt":
                     continue
-                out.append("%s:%d" % (rel, os.path.getsize(p)))
+                out.append("%s:%d" % (norm_tmp(rel), os.path.getsize(p)))
             for d in dirs:
                 rel = os.path.relpath(os.path.join(root, d), base)
                 if not rel.startswith("tmp"):
-                    out.append(rel + "/")
+                    out.append(norm_tmp(rel) + "/")
         return sorted(out)
 
 
